@@ -152,6 +152,9 @@ structure NodeCtx where
   mtch : Option Nat
   content : List Node := []
   opts : Opts
+  uid : Nat := 0              -- object identity of the NodeContext (the DOM walk keeps references: `top`, `start_in`)
+  activeT : List TMark := []  -- `active` with the object identities (same marks, same order); read by the DOM walk only
+  stashT : List TMark := []   -- `stash` with the object identities
 deriving Repr, Inhabited
 
 /-- `NodeContext.__init__` with `match = None` passed in -/
@@ -166,6 +169,7 @@ structure PState where
   needsBlock : Bool := false
   isOpen : Bool
   topOpen : Bool := false
+  fresh : Nat := 1            -- the next unused `NodeCtx.uid` (the root context has 0)
 deriving Repr, Inhabited
 
 /-- `ParseContext.__init__` (no `top_node`): `parse` has `is_open = False`, `parse_slice` `True` -/
@@ -212,7 +216,8 @@ def NodeCtx.applyPending (S : Schema) (cx : NodeCtx) (nextTy : TypeId) : NodeCtx
       | some t => (S.nodeType t).allowsMarkType m.2.ty
       | none => markMayApply S m.2.ty nextTy
     if may && !m.2.isInSet cx.active then
-      { cx with active := m.2.addToSet S cx.active, pending := tRemoveFromSet m.2 cx.pending }
+      { cx with active := m.2.addToSet S cx.active, pending := tRemoveFromSet m.2 cx.pending,
+                activeT := tAddToSet S m cx.activeT }
     else cx) cx
 
 /-- `find_same_mark_in_set(mark, pending)` -/
@@ -222,7 +227,10 @@ def findSameMark (m : Mark) (set : List TMark) : Option Mark := (set.find? (fun 
     stash entry; `list.remove` then deletes that entry -/
 def NodeCtx.popFromStash (cx : NodeCtx) (m : Mark) : NodeCtx × Option Mark :=
   match cx.stash.find? (· == m) with
-  | some f => ({ cx with stash := cx.stash.erase f }, some f)
+  | some f => ({ cx with stash := cx.stash.erase f,
+                         stashT := match cx.stashT.find? (·.2 == m) with
+                           | some ft => cx.stashT.erase ft
+                           | none => cx.stashT }, some f)
   | none => (cx, none)
 
 /-! ### filling -/
@@ -367,8 +375,8 @@ def PState.enterInner (S : Schema) (wsPre : TypeId → Bool) (st : PState) (ty :
       let opts := wsOptionsFor (wsPre ty) pw top.opts
       let opts := if top.opts.openLeft && top.content.isEmpty then { opts with openLeft := true } else opts
       let st := st.setTop top
-      .ok { st with nodes := st.nodes ++ [NodeCtx.new (some ty) attrs top.active top.pending solid opts],
-                    open_ := st.open_ + 1 }
+      .ok { st with nodes := st.nodes ++ [{ NodeCtx.new (some ty) attrs top.active top.pending solid opts with uid := st.fresh }],
+                    open_ := st.open_ + 1, fresh := st.fresh + 1 }
 
 /-- the `while depth >= 0` loop of `find_place`; `n` = depth + 1.  A route is replaced only by a strictly
     shorter one; the walk goes on below an empty route (the `break` the code has there is dead) and
@@ -476,7 +484,7 @@ def PState.addPendingMark (S : Schema) (st : PState) (m : TMark) : Res PState :=
   | none => .error .internal
   | some top =>
     let top := match findSameMark m.2 top.pending with
-      | some f => { top with stash := top.stash ++ [f] }
+      | some f => { top with stash := top.stash ++ [f], stashT := top.stashT ++ (top.pending.find? (fun (o : TMark) => o.2 == m.2)).toList }
       | none => top
     .ok (st.setTop { top with pending := tAddToSet S m top.pending })
 
@@ -485,11 +493,18 @@ def NodeCtx.removePending (S : Schema) (level : NodeCtx) (m : TMark) : NodeCtx :
   if level.pending.any (fun o => o.1 == m.1) then
     { level with pending := tRemoveFromSet m.2 level.pending }
   else
-    let level := { level with active := m.2.removeFromSet level.active }
+    let level := { level with active := m.2.removeFromSet level.active, activeT := tRemoveFromSet m.2 level.activeT }
+    let smT := level.stashT.find? (·.2 == m.2)
     match level.popFromStash m.2 with
     | (level, some sm) =>
       match level.ty with
-      | some t => if (S.nodeType t).allowsMarkType sm.ty then { level with active := sm.addToSet S level.active } else level
+      | some t =>
+        if (S.nodeType t).allowsMarkType sm.ty then
+          { level with active := sm.addToSet S level.active,
+                       activeT := match smT with
+                         | some x => tAddToSet S x level.activeT
+                         | none => level.activeT }
+        else level
       | none => level
     | (level, none) => level
 
@@ -570,5 +585,21 @@ def textStableB (S : Schema) : Bool :=
 /-- leaf types accept the empty content -/
 def leafOkB (S : Schema) : Bool :=
   (List.range S.nodes.size).all (fun t => !(S.nodeType t).isLeaf || (S.dfa t).accepts [])
+
+/-- the automata are well formed (every edge leads to a state of the automaton and is labelled with a node
+    type of the schema, every node type has a start state) and fillings never fail: from every state the
+    content can be completed with generatable nodes (`fill_before(Fragment.empty, True)` is not `None`), and
+    every generatable node type can be created and filled (`create_and_fill()` is not `None`).  Where this
+    fails the real parser dies with AttributeError on a `None` (e.g. content `a+ text`: `<x><a></a></x>`). -/
+def fillOkB (S : Schema) : Bool :=
+  decide (S.top < S.nodes.size) &&
+  (List.range S.nodes.size).all (fun t =>
+    decide (0 < (S.dfa t).size) &&
+    (!S.generatable t || (match createAndFill S (S.nodes.size + 1) t with
+      | .ok _ => true
+      | .error _ => false)) &&
+    (List.range (S.dfa t).size).all (fun q =>
+      (fillBefore (S.dfa t) S.generatable q [] true).isSome &&
+      ((S.dfa t).edgesOf q).all (fun e => decide (e.2 < (S.dfa t).size) && decide (e.1 < S.nodes.size))))
 
 end PM.FromDom
